@@ -250,3 +250,45 @@ Print Assumptions valid_inb_sound.
 Theorem valid_claimb_sound : forall thr c, valid_claimb thr c = true -> valid_claim thr c.
 Proof. exact Proofs.C40.valid_claimb_sound. Qed.
 Print Assumptions valid_claimb_sound.
+
+(* ---- call histories on one long-lived chain handle (production builds ONE TbtcChain per node;
+   every local member of every group calls it) *)
+
+(* the handle keeps no memory: whatever was asked before, a history of hash / sign / assemble /
+   claim-hash / wallet-id calls is answered call by call by the pure function of the call's own
+   arguments — every field of the preimage (misbehaved list, key, start block, chain id; nonce,
+   inactive list, heartbeat flag) decides the bytes hashed in THAT call *)
+Theorem history_is_map : forall calls, run_history calls = map call_client_preimage calls.
+Proof. exact Proofs.C40.history_is_map. Qed.
+Print Assumptions history_is_map.
+
+Theorem history_answer_independent_of_other_calls :
+  forall before c after,
+    nth_error (run_history (before ++ c :: after)) (length before) = Some (call_client_preimage c).
+Proof. exact Proofs.C40.history_nth. Qed.
+Print Assumptions history_answer_independent_of_other_calls.
+
+(* in every call within the property's domain (256-bit key coordinates, chain id and nonce, start
+   block below 2^63, uint8 member indices, distinct misbehaved members) the client hashes exactly
+   the bytes the contract hashes for the result / claim / wallet these arguments describe *)
+Theorem history_call_preimages_equal :
+  forall c, call_validb c = true ->
+  exists pre, call_client_preimage c = Some pre /\ call_contract_preimage c = Some pre.
+Proof. exact Proofs.C40.call_preimages_equal. Qed.
+Print Assumptions history_call_preimages_equal.
+
+(* soundness of the executable form judged per run: a history that passes [hspec_ok] has, for
+   every call in the domain, the driver's preimage equal to the contract's AND the model's bytes
+   for that call alone, the handle's hash equal to Keccak256 of it, signatures over it that
+   recover to the operator, and a result that later calls did not change *)
+Theorem hspec_ok_sound : forall h, hspec_ok h = true -> Forall Proofs.C40.hentry_good h.
+Proof. exact Proofs.C40.hspec_ok_sound. Qed.
+Print Assumptions hspec_ok_sound.
+
+(* ... and it is satisfiable by every history: answering each call with the model's bytes for that
+   call passes the executable property and agrees with the model *)
+Theorem model_history_passes_spec :
+  forall calls, hspec_ok (map (fun c => (c, Proofs.C40.model_obs c)) calls) = true
+             /\ hagree (map (fun c => (c, Proofs.C40.model_obs c)) calls) = true.
+Proof. exact Proofs.C40.model_history_passes. Qed.
+Print Assumptions model_history_passes_spec.
